@@ -1,5 +1,5 @@
-From InfOCF Require Import Core Tol TolExt Form Model Thm06 ThmInv PyLib TieLib TieCons TieZ.
-From InfOCFGen Require Import SrcCond SrcCons SrcP.
+From InfOCF Require Import Core Tol TolExt PEnt Form Model Spec Exec Thm06 ThmInv ThmOps ThmP ThmTop ThmPExt PyLib TieLib TieSolver TieCons TieInf.
+From InfOCFGen Require Import SrcCond SrcCons SrcInf SrcP.
 From Coq Require Import ZArith.
 (* TIE: the function GENERATED from inference/p_entailment.py (gen/SrcP.v) equals the hand-written model of
    p-entailment (Model.p_strict / p_ext), for every signature size, dictionary of conditionals, query and mode. *)
@@ -66,3 +66,34 @@ Proof.
       destruct r; cbn [pres_map res_of] in Hres; try discriminate; reflexivity.
 Qed.
 End TieP.
+
+Section TiePTop.
+Variable n : nat.
+Notation W := (worlds n).
+(* p-entailment, both modes *)
+Theorem e2e_p weakly (d:dict Z cond) q u Pc st : dict_values d <> [] ->
+  py_consistency n (S (length d)) (Build_pybase d) u weakly = Return (PVal Pc, st) ->
+  exists b, py_general_inference n (py_PEntailment_inference n (S (S (length d))) (Build_pybase d) u) weakly q tt tt = Return b
+         /\ infer n SysP weakly (dict_values d) q = Ans b.
+Proof. intros HD Hrun. pose proof (src_partition n _ _ _ _ _ Hrun) as Hc.
+  eexists. split.
+  - apply tie_general_inference. apply (tie_p_inference n d q weakly u tt).
+  - unfold infer. destruct (dict_values d) as [|c0 D0] eqn:ED; [congruence|]. rewrite <- ED in *. rewrite Hc.
+    destruct weakly; reflexivity. Qed.
+
+Lemma ans_inj_p a b : Ans a = Ans b -> a = b.  Proof. congruence. Qed.
+
+Corollary src_p_strict_rankings (d:dict Z cond) q u Pc st : dict_values d <> [] -> trivial n q = false ->
+  py_consistency n (S (length d)) (Build_pybase d) u false = Return (PVal Pc, st) ->
+  exists b, py_general_inference n (py_PEntailment_inference n (S (S (length d))) (Build_pybase d) u) false q tt tt = Return b /\
+    (b = true <-> forall kappa, model world W kappa (map ac (dict_values d)) -> accepts world W kappa (ac q)).
+Proof. intros HD Ht Hrun. destruct (e2e_p false d q u Pc st HD Hrun) as [b [Hb Hi]]. exists b. split; [exact Hb|].
+  rewrite <- (infer_p_strict_rankings n (dict_values d) q (acP Pc) HD (src_partition n _ _ _ _ _ Hrun) Ht).
+  rewrite Hi. split; congruence. Qed.
+Corollary src_p_ext_spec (d:dict Z cond) q u Pc st : dict_values d <> [] -> NoDup (map ckey (dict_values d)) ->
+  py_consistency n (S (length d)) (Build_pybase d) u true = Return (PVal Pc, st) ->
+  py_general_inference n (py_PEntailment_inference n (S (S (length d))) (Build_pybase d) u) true q tt tt
+  = Return (ext_spec W (acP Pc) q (p_def (fresh (dict_values d)))).
+Proof. intros HD Hnd Hrun. destruct (e2e_p true d q u Pc st HD Hrun) as [b [Hb Hi]]. rewrite Hb. f_equal.
+  apply ans_inj_p. rewrite <- Hi. apply infer_p_ext; [exact HD|exact Hnd|]. exact (src_partition n _ _ _ _ _ Hrun). Qed.
+End TiePTop.
